@@ -66,7 +66,8 @@ class Ev:
             a, b = self.ev(e[1]), self.ev(e[2])
             self.nonzero.append(b != 0)
             if self.real:
-                return z3.Function("mod_r", self.S, self.S, self.S)(a, b)
+                # sympy's Mod on reals: a - b*floor(a/b)
+                return a - b * z3.ToReal(z3.ToInt(a / b))
             self.modpos.append(z3.And(a >= 0, b > 0))
             return tmod(a, b)
         if k in ("min", "max"):
@@ -207,6 +208,7 @@ def work(batch):
                               for c in ev.exact]
                 key["params"]["exact_div_sound"] = False
                 key["params"]["mod_nonneg_sound"] = False
+                key["params"]["real_diff_int_const"] = False
                 if exact:
                     rr, _, _ = solve(base + cons + exact, 20000)
                     key["params"]["exact_div_sound"] = rr == "unsat"
@@ -214,6 +216,18 @@ def work(batch):
                 if modpos and not key["params"]["exact_div_sound"]:
                     rr, _, _ = solve(base + cons + exact + modpos, 20000)
                     key["params"]["mod_nonneg_sound"] = rr == "unsat"
+                if unit == "SymbolicMaths.never_equal":
+                    # the known defect class: over the rationals the difference is a non-zero
+                    # INTEGER constant (that is the only case in which the pinned code answers True)
+                    evr = Ev(real=True)
+                    q1, q2 = evr.ev(p["e1"]), evr.ev(p["e2"])
+                    r0, m0, _ = solve(evr.nonzero, 4000)
+                    if r0 == "sat":
+                        c0 = m0.eval(q1 - q2, model_completion=True)
+                        if z3.is_rational_value(c0) and c0.denominator_as_long() == 1 \
+                                and c0.numerator_as_long() != 0:
+                            rr, _, _ = solve(evr.nonzero + [q1 - q2 != c0], 8000)
+                            key["params"]["real_diff_int_const"] = rr == "unsat"
             key["params"].pop("_exact", None)
             key["params"].pop("_modpos", None)
             outs.append(o)
